@@ -1,3 +1,4 @@
+import re
 """C06 - `**` does not traverse symlinked directories unless asked; glob terminates."""
 import json
 import os
@@ -61,6 +62,11 @@ def run(ctx):
                 if (globcommon.group_then_wild(pp) or globcommon.group_segment_can_be_empty(pp)) or globcommon.star_then_wild(pp):
                     continue
                 if merged_mb and ctx.is_known(lambda e: e['id'] == 'C05-matchbase-merged-globstars'):
+                    continue
+                # a group with a dot-only alternative (`+(x|.)`) names the special entries `.` / `..` in the walker, link or no
+                # link (`.a/+(.)/` gives `.a/./`): whether it may is dot handling (C03/C05), not symlink traversal - the
+                # reference never fakes those entries for a group, so such a result is outside what C06 states
+                if any(q in ('.', '..') for q in parts) and re.search(r'[(|](?:\\?\.)+[|)]', pattern):
                     continue
                 ctx.counterexample('glob(%r, %s) listed through a symlinked directory: returned %r, which the reference interpretation does not denote' % (
                     pattern, corr.flag_names(fv), x), {'pattern': pattern, 'ppat': pp, 'flags': corr.flag_names(fv), 'tree': spec, 'path': x})
